@@ -25,6 +25,8 @@ Inductive op :=
 | TIn (v : Z)                     (* add_transparent_p2pkh_input, coin value v *)
 | TInSh (v m n : Z)               (* add_transparent_p2sh_input: m-of-n multisig coin whose redeem
                                      script lists the multisig keys 4 .. 4+n-1 in that order *)
+| TInRaw (v : Z)                  (* add_transparent_p2sh_input with a redeem script that is not a
+                                     standard template (its input size is unknown, it cannot be signed) *)
 | TOut (v : Z) (p2sh : bool)      (* add_transparent_output *)
 | TNull (len : Z)                 (* add_transparent_null_data_output, len bytes *)
 | SSpend (v : Z) | SOut (v : Z)   (* add_sapling_spend / add_sapling_output *)
@@ -41,7 +43,8 @@ Record req := mkReq {
   r_sap : bool; r_orc : bool; r_iw : bool;      (* anchors supplied in BuildConfig::Standard *)
   r_opad : pad; r_ipad : pad;
   r_keys : list Z;                (* multisig keys present in the TransparentSigningSet *)
-  r_ops : list op; r_rule : rule; r_route : route }.
+  r_ops : list op; r_rule : rule; r_route : route;
+  r_coinbase : bool }.            (* BuildConfig::Coinbase { miner_data: None } (transaction routes) *)
 
 (** What a fee rule is asked about. *)
 Record shape := mkSeen {
@@ -59,6 +62,8 @@ Inductive berr :=
 | ESaplingNA | EOrchardNA | EIronwoodNA
 | EOther
 | EDeferral                       (* AnchorDeferralUnsupported *)
+| ECoinbase                       (* Error::Coinbase: inputs in a coinbase transaction, genesis height *)
+| ECoinbaseExpiry                 (* CoinbaseExpiryHeightMismatch *)
 | EAdd (i : Z) (e : berr).        (* the i-th call on the builder failed with e *)
 
 (** One shielded bundle as observed: counts, value balance and — where the route exposes note
@@ -144,9 +149,13 @@ Definition tin_of (o : op) : list (Z * Z) :=
   match o with
   | TIn v => [(v, P2PKH_STANDARD_INPUT_SIZE)]
   | TInSh v m n => [(v, p2sh_input_size m n)]
+  | TInRaw v => [(v, -1)]               (* InputSize::Unknown *)
   | _ => []
   end.
-Definition tsh_of (o : op) : list (Z * Z) := match o with TInSh _ m n => [(m, n)] | _ => [] end.
+(** how each transparent input is spent *)
+Inductive tkind := KPkh | KSh (m n : Z) | KRaw.
+Definition tk_of (o : op) : list tkind :=
+  match o with TIn _ => [KPkh] | TInSh _ m n => [KSh m n] | TInRaw _ => [KRaw] | _ => [] end.
 Definition tout_of (o : op) : list (Z * Z) :=
   match o with
   | TOut v p2sh => [(v, if p2sh then 32 else 34)]
@@ -163,7 +172,7 @@ Definition io_of (o : op) : list Z := match o with IOut v => [v] | _ => [] end.
 
 Definition tin_vs := flat_map tin_of.
 Definition tin_vals (ops : list op) : list Z := map fst (tin_vs ops).
-Definition tsh_mn := flat_map tsh_of.
+Definition tkinds := flat_map tk_of.
 Definition tout_vs := flat_map tout_of.
 Definition ss_vals := flat_map ss_of.
 Definition so_vals := flat_map so_of.
@@ -185,9 +194,13 @@ Definition env_of (r : req) : env :=
   let br := branch_at (r_net r) (r_height r) in
   {| e_branch := br;
      (* DeferredPcztBuilder: no Sapling, both Orchard-family builders always exist *)
-     e_sap := negb (is_deferred r) && r_sap r;
-     e_orc := is_deferred r || (r_orc r && branch_has_orchard br);
-     e_iw := is_deferred r || (r_iw r && has_ironwood (suggested_for_branch br));
+     (* Coinbase: a Sapling builder always; an Orchard builder on the branches whose Orchard pool
+        still accepts coinbase outputs (NU5 .. NU6.2); an Ironwood builder from NU6.3 on *)
+     e_sap := if r_coinbase r then true else negb (is_deferred r) && r_sap r;
+     e_orc := if r_coinbase r then branch_has_orchard br && negb (branch_has_ironwood br)
+              else is_deferred r || (r_orc r && branch_has_orchard br);
+     e_iw := if r_coinbase r then has_ironwood (suggested_for_branch br)
+             else is_deferred r || (r_iw r && has_ironwood (suggested_for_branch br));
      (* orchard BundleVersion::default_flags: cross-address transfers are disabled for the
         Orchard pool under protocol revision V3 (NU6.3) *)
      e_cross := negb (branch_has_ironwood br) |}.
@@ -232,22 +245,29 @@ Definition zip317_logical (s : shape) : Z :=
   + Z.max (sh_sin s) (sh_sout s) + sh_orc s + sh_iw s.
 Definition zip317_fee (s : shape) : Z := MARGINAL_FEE * Z.max GRACE_ACTIONS (zip317_logical s).
 
+(** the recording rule of the harness counts an input of unknown size as 0 bytes *)
 Definition lin_fee (c : list Z) (s : shape) : Z :=
-  nth 0 c 0 + nth 1 c 0 * zsum (sh_tin s) + nth 2 c 0 * zsum (sh_tout s)
+  nth 0 c 0 + nth 1 c 0 * zsum (map (Z.max 0) (sh_tin s)) + nth 2 c 0 * zsum (sh_tout s)
   + nth 3 c 0 * sh_sin s + nth 4 c 0 * sh_sout s + nth 5 c 0 * sh_orc s + nth 6 c 0 * sh_iw s.
 
 (** The exact (unbounded) fee of a rule, and the rule as executed (fails above MAX_MONEY). *)
 Definition rule_fee (ru : rule) (s : shape) : Z :=
   match ru with RZip317 => zip317_fee s | RLin c => lin_fee c s end.
+(** zip317: an input of unknown size is FeeError::UnknownP2shInputs *)
+Definition has_unknown_size (s : shape) : bool := existsb (fun z => z <? 0) (sh_tin s).
 Definition fee_required (ru : rule) (s : shape) : option Z :=
-  let f := rule_fee ru s in if f <=? MAX_MONEY then Some f else None.
+  let f := rule_fee ru s in
+  if (match ru with RZip317 => has_unknown_size s | RLin _ => false end) then None
+  else if f <=? MAX_MONEY then Some f else None.
 
 (* ---------------------------------------------------------------- version check *)
 Definition orchard_in_use (r : req) (ops : list op) : bool :=
   e_orc (env_of r) &&
-  (nonempty (os_vals ops) || nonempty (oo_vals ops) || nonempty (oc_vals ops) || p_req (r_opad r)).
+  (nonempty (os_vals ops) || nonempty (oo_vals ops) || nonempty (oc_vals ops)
+   || (negb (r_coinbase r) && p_req (r_opad r))).
 Definition ironwood_in_use (r : req) (ops : list op) : bool :=
-  e_iw (env_of r) && (nonempty (is_vals ops) || nonempty (io_vals ops) || p_req (r_ipad r)).
+  e_iw (env_of r) && (nonempty (is_vals ops) || nonempty (io_vals ops)
+                      || (negb (r_coinbase r) && p_req (r_ipad r))).
 Definition sapling_in_use (ops : list op) : bool := nonempty (ss_vals ops) || nonempty (so_vals ops).
 
 (** Builder::check_version_compatibility on a builder holding the accepted calls [ops]. *)
@@ -273,16 +293,23 @@ Definition step_err (r : req) (done : list op) (o : op) : option berr :=
   let e := env_of r in
   if is_deferred r && negb (deferred_op o) then Some EOther   (* not in that builder's interface *)
   else match o with
-  | TIn _ | TInSh _ _ _ | TOut _ _ | Expiry _ => None
+  | TIn _ | TInSh _ _ _ | TInRaw _ | TOut _ _ | Expiry _ => None
   | TNull n => if 80 <? n then Some ETransparentBuild else None
   | SSpend _ | SOut _ =>
       if negb (e_sap e) then Some ESaplingNA
+      (* a coinbase Sapling bundle takes no spends (BundleTypeNotSatisfiable) *)
+      else if r_coinbase r && (match o with SSpend _ => true | _ => false end) then Some ESaplingBuild
       else if in_i64 (sapling_balance (done ++ [o])) then None else Some ESaplingAmount
-  | OSpend _ | OChange _ => if e_orc e then None else Some EOrchardNA
+  | OSpend _ => if negb (e_orc e) then Some EOrchardNA
+                else if r_coinbase r then Some EOrchardSpend       (* SpendsDisabled *)
+                else None
+  | OChange _ => if e_orc e then None else Some EOrchardNA
   | OOut _ => if negb (e_orc e) then Some EOrchardNA
               else if e_cross e then None else Some EOrchardRecipient
   | ISpend _ nv3 => if negb (e_iw e) then Some EIronwoodNA
-                    else if nv3 then None else Some EIronwoodNoteVersion
+                    else if negb nv3 then Some EIronwoodNoteVersion
+                    else if r_coinbase r then Some EIronwoodSpend  (* SpendsDisabled *)
+                    else None
   | IOut _ => if e_iw e then None else Some EIronwoodNA
   | Propose v => check_version r done v
   end.
@@ -307,7 +334,7 @@ Fixpoint run_ops (r : req) (done todo : list op) (hd : ver * Z) (i : Z) : outcom
 
 Definition init_hdr (r : req) : ver * Z :=
   (suggested_for_branch (branch_at (r_net r) (r_height r)),
-   Z.min (r_height r + DEFAULT_TX_EXPIRY_DELTA) u32_max).
+   if r_coinbase r then r_height r else Z.min (r_height r + DEFAULT_TX_EXPIRY_DELTA) u32_max).
 
 (* ---------------------------------------------------------------- value balance *)
 (** Sum of Zatoshis (Option): fails when a partial sum exceeds MAX_MONEY. *)
@@ -333,7 +360,8 @@ Definition orchard_balance (spends outs : list Z) : option Z :=
 
 Definition in_bal (x : Z) : bool := in_range (- MAX_MONEY) MAX_MONEY x.
 
-(** Builder::value_balance. [Panic]: sapling Builder::value_balance::<ZatBalance>() expects. *)
+(** Builder::value_balance (after the C14 fix: a Sapling balance outside the monetary range is
+    BalanceError::Overflow, like the Orchard and Ironwood balances). *)
 Definition value_balance (r : req) : outcome Z berr :=
   let e := env_of r in
   let ops := r_ops r in
@@ -341,7 +369,7 @@ Definition value_balance (r : req) : outcome Z berr :=
   | Some i, Some o =>
       let t := i - o in
       let s := if e_sap e then sapling_balance ops else 0 in
-      if negb (in_bal s) then Panic
+      if negb (in_bal s) then Err (EBalance true)
       else match (if e_orc e then orchard_balance (os_vals ops) (oo_vals ops ++ oc_vals ops) else Some 0) with
       | None => Err (EBalance true)
       | Some ob =>
@@ -375,6 +403,16 @@ Definition mk_bundle (known : bool) (nsp nout vb : Z) (sp outs : list Z) : shb :
 (** routes whose result is a PCZT (note values visible, no signatures yet) *)
 Definition is_pczt (r : req) : bool := match r_route r with Pczt | Deferred => true | _ => false end.
 
+(** KNOWN FINDING (external crate): zcash_script 0.4.3 serialises the length byte of an
+    OP_PUSHDATA1 push as a script number, which takes two bytes for lengths 128..255. The pushed
+    redeem script of an m-of-n multisig with 4 <= n <= 7 keys (139..241 bytes) is therefore
+    malformed: a script interpreter reads a one-byte length, the scriptSig is not push-only and
+    the input cannot be spent with it. The builder returns Ok all the same. *)
+Definition push_len_bug (n : Z) : bool := let rs := 3 + 34 * n in (128 <=? rs) && (rs <=? 255).
+Definition malformed_script_sig (r : req) : bool :=
+  negb (is_pczt r)
+  && existsb (fun k => match k with KSh _ n => push_len_bug n | _ => false end) (tkinds (r_ops r)).
+
 Definition assemble (r : req) (hd : ver * Z) (fee : Z) : built :=
   let e := env_of r in
   let ops := r_ops r in
@@ -402,7 +440,7 @@ Definition assemble (r : req) (hd : ver * Z) (fee : Z) : built :=
      b_tin := tin_vs ops; b_tout := tout_vs ops;
      b_sap := sap; b_orc := orc; b_iw := iw;
      b_fee_paid := if pczt then None else Some fee;
-     b_dec := true; b_sig := true |}.
+     b_dec := true; b_sig := negb (malformed_script_sig r) |}.
 
 (** Bundle::<Unauthorized>::apply_signatures, multisig arm: walking the redeem script's public
     keys (4 .. 4+n-1) in order, one signature per key found in the signing set until m are
@@ -413,6 +451,20 @@ Definition signing_keys (keys : list Z) (m n : Z) : list Z :=
   firstn (Z.to_nat m) (filter (registered keys) (script_keys n)).
 Definition p2sh_signable (keys : list Z) (mn : Z * Z) : bool :=
   len (signing_keys keys (fst mn) (snd mn)) =? fst mn.
+
+(** apply_signatures over the inputs in order ([ow]: the version has Overwinter, i.e. its
+    signature hash is defined). P2PKH: the key is found, then the sighash is computed; multisig:
+    the sighash is computed, then the keys are looked up; a redeem script that is not a standard
+    template is UnsupportedScript before any hashing. The first failure decides; without inputs the
+    shielded sighash is still computed. *)
+Fixpoint sign_check (ow : bool) (keys : list Z) (ks : list tkind) : outcome unit berr :=
+  match ks with
+  | [] => if ow then Ok tt else Panic
+  | KPkh :: r => if ow then sign_check ow keys r else Panic
+  | KSh m n :: r => if negb ow then Panic
+                    else if p2sh_signable keys (m, n) then sign_check ow keys r else Err ETransparentBuild
+  | KRaw :: _ => Err ETransparentBuild
+  end.
 
 (** Builder::build (Standard) / mock_build / build_for_pczt, and
     DeferredPcztBuilder::build_for_pczt, after the calls. (The deferred builder does not call
@@ -438,13 +490,45 @@ Definition finish (r : req) (hd : ver * Z) : outcome built berr :=
                    then Err ESaplingZip212 else Ok (assemble r hd fee)
                | _ =>
                    (* sighash_v4: "Signature hashing for pre-overwinter transactions is not supported" *)
-                   if negb (has_overwinter (fst hd)) then Panic
-                   (* a multisig input for which fewer than m keys are registered *)
-                   else if forallb (p2sh_signable (r_keys r)) (tsh_mn (r_ops r)) then Ok (assemble r hd fee)
-                   else Err ETransparentBuild
+                   match sign_check (has_overwinter (fst hd)) (r_keys r) (tkinds (r_ops r)) with
+                   | Ok _ => Ok (assemble r hd fee)
+                   | Err e => Err e
+                   | Panic => Panic
+                   end
                end
       end
     end
+  end.
+
+(** Builder::build with BuildConfig::Coinbase: no fee and no balance check; the expiry height must
+    be the target height; no transparent inputs; bundles hold exactly the requested outputs. *)
+Definition assemble_cb (r : req) (hd : ver * Z) : built :=
+  let e := env_of r in
+  let ops := r_ops r in
+  let oouts := oo_vals ops ++ oc_vals ops in
+  {| b_ver := fst hd; b_branch := branch_id (e_branch e); b_expiry := snd hd; b_lock := 0;
+     b_tin := []; b_tout := tout_vs ops;
+     b_sap := if 0 <? len (so_vals ops)
+              then Some (mk_bundle false 0 (len (so_vals ops)) (- zsum (so_vals ops)) [] (so_vals ops)) else None;
+     b_orc := if e_orc e && (0 <? len oouts)
+              then Some (mk_bundle false (len oouts) (len oouts) (- zsum oouts) [] oouts) else None;
+     b_iw := if e_iw e && (0 <? len (io_vals ops))
+             then Some (mk_bundle false (len (io_vals ops)) (len (io_vals ops)) (- zsum (io_vals ops)) [] (io_vals ops))
+             else None;
+     b_fee_paid := None; b_dec := true; b_sig := true |}.
+
+Definition finish_cb (r : req) (hd : ver * Z) : outcome built berr :=
+  let ops := r_ops r in
+  match check_version r ops (fst hd) with
+  | Some e => Err e
+  | None =>
+    if negb (snd hd =? r_height r) then Err ECoinbaseExpiry
+    else if nonempty (tin_vs ops) then Err ECoinbase             (* UnexpectedInputs *)
+    else if r_height r =? 0 then Err ECoinbase                   (* GenesisInputNotSupported *)
+    else if negb (in_bal (zsum (so_vals ops))) then Err ESaplingAmount
+    else if e_orc (env_of r) && negb (in_bal (zsum (oo_vals ops ++ oc_vals ops))) then Err EOrchardBuild
+    else if e_iw (env_of r) && negb (in_bal (zsum (io_vals ops))) then Err EIronwoodBuild
+    else if has_overwinter (fst hd) then Ok (assemble_cb r hd) else Panic
   end.
 
 (** DeferredPcztBuilder::new refuses a branch whose suggested version is not V6. *)
@@ -456,12 +540,13 @@ Definition build (r : req) : outcome built berr :=
   match run_ops r [] (r_ops r) (init_hdr r) 0 with
   | Err e => Err e
   | Panic => Panic
-  | Ok hd => finish r hd
+  | Ok hd => if r_coinbase r then finish_cb r hd else finish r hd
   end.
 
 (** What the recording fee rule sees: only a linear rule records, and only when get_fee is reached. *)
 Definition model_seen (r : req) : option shape :=
   if deferral_refused r then None else
+  if r_coinbase r then None else       (* a coinbase build never asks the fee rule *)
   match r_rule r, run_ops r [] (r_ops r) (init_hdr r) 0 with
   | RLin _, Ok _ => Some (req_shape r)
   | _, _ => None
